@@ -225,8 +225,16 @@ func receiveFromTransport(ctx context.Context, c *channel, done chan<- struct{})
 			case c.inSesChan <- e:
 				// If a session is received while established,
 				// the receiver goroutine can stop.
-				if c.client && e.State.Step() >= c.State().Step() {
-					c.setStateWLock(e.State)
+				if c.client {
+					if e.State.Step() >= c.State().Step() {
+						c.setStateWLock(e.State)
+					}
+					if c.Established() {
+						// The server did not end the session, but nothing else
+						// will be received: close the transport, so the channel
+						// is no longer reported as established
+						_ = c.transport.Close()
+					}
 				}
 				return
 			}
